@@ -196,6 +196,8 @@ class Gen:
                 labels.append(["exponentialrate", ["int", self.K()] if r.random() < 0.6 else ["FRACTION", ["int", self.K()], ["int", self.K()]]])
             flag = r.choice(["", "", "", "U", "C"])
             special = {0: "Err", 1: "lpmin"}.get(i) if r.random() < 0.05 else None      # names the XML writer special-cases
+            if special is None and named and r.random() < 0.08:
+                special = r.choice(["S$%d", "S#%d", "s%d$x#"]) % i       # `$` and `#` are identifier characters
             if special is None and t > 0 and i == nl - 1 and r.random() < 0.15:
                 special = "T%d" % r.randrange(t)      # a location may carry a name that is visible in an enclosing scope (an earlier template)
             locs.append({"id": lid, "name": (special or ("S%d" % i)) if named else None, "labels": labels,
